@@ -6,7 +6,7 @@
 //! the lines of Tiny v2, where an entry line carries the key (in the first namespace) followed by
 //! the two columns `old <TAB> new` of the target namespace, a parameter line has an empty source
 //! column, and a comment line is `c <TAB> old <TAB> new`. An empty column is "absent"; a backslash
-//! is written `\\` and a line break `\n`.
+//! is written `\\`, a line break `\n`, a carriage return `\r`, a TAB `\t` and a NUL character `\0`.
 
 use super::*;
 
@@ -39,11 +39,11 @@ fn ok_name(a: &Act) -> bool {
 	}
 }
 
-/// A comment can be written if it is not empty (an empty column is "absent") and has no TAB (the
-/// column separator, for which the format has no escape) and no carriage return (part of a line end).
-/// Backslashes and line breaks are written with their escapes.
+/// A comment can be written if it is not empty (an empty column is "absent"). Backslashes, line
+/// breaks, carriage returns, TABs and NUL characters are written with the escapes of Tiny v2
+/// (backslash followed by backslash, `n`, `r`, `t`, `0`).
 fn ok_doc(a: &Act) -> bool {
-	let f = |s: &String| !s.is_empty() && !s.contains('\t') && !s.contains('\r');
+	let f = |s: &String| !s.is_empty();
 	match a {
 		Act::None => true,
 		Act::Add(b) => f(b),
@@ -120,6 +120,9 @@ pub fn expect(d: &MDiff, nd: &MDiff, target: &MSet, t: usize) -> mdiff::Expect {
 /// letters, the letter that follows a backslash in the line-break escape, the backslash, a line
 /// break, a character outside ASCII (two bytes in UTF-8), a blank (trimmed by careless line handling)
 pub const ESCAPE_ALPHABET: [char; 6] = ['a', 'n', '\\', '\n', 'é', ' '];
+/// the other escapes of Tiny v2 (carriage return, TAB, NUL) with the letters that follow the backslash
+/// in their escapes, the backslash and a character of four bytes
+pub const ESCAPE_ALPHABET_2: [char; 8] = ['\\', 't', 'r', '0', '\t', '\r', '\0', '😀'];
 /// a value that no string over the alphabet equals
 const OTHER: &str = "z";
 
@@ -137,7 +140,7 @@ pub fn set_slot(m: &mut MSet, site: Site, v: Option<String>) {
 }
 
 fn needs_escape(s: &str) -> bool {
-	s.contains('\\') || s.contains('\n')
+	s.contains(['\\', '\n', '\r', '\t', '\0'])
 }
 
 pub struct EscapeCounts {
@@ -146,15 +149,15 @@ pub struct EscapeCounts {
 	pub string_pairs: u64,
 }
 
-/// Every string over [`ESCAPE_ALPHABET`] of length 1..=`max_len` as the comment of an addition, a
+/// Every string over `alphabet` of length 1..=`max_len` as the comment of an addition, a
 /// removal, the new and the old side of an edit, at all four comment levels; every ordered pair of
 /// different strings of length 1..=`pair_len` as the two sides of one edit and as (stated old value,
 /// actual value) of a removal that must be refused. All through text.
-pub fn escape_space(eng: &'static Engine, max_len: usize, pair_len: usize) -> EscapeCounts {
+pub fn escape_space(eng: &'static Engine, alphabet: &'static [char], max_len: usize, pair_len: usize) -> EscapeCounts {
 	let full = initial_sets().into_iter().find(|(n, _)| *n == "fully-named").map(|(_, m)| m).unwrap_or_else(|| vcore::machinery_fail("no fully-named set"));
-	let k = ESCAPE_ALPHABET.len();
+	let k = alphabet.len();
 	let total = vcore::enumerate::strings_count(k, max_len);
-	let string = |max: usize, i: u64| -> String { vcore::enumerate::string_nth(&ESCAPE_ALPHABET, max, i).into_iter().collect() };
+	let string = |max: usize, i: u64| -> String { vcore::enumerate::string_nth(alphabet, max, i).into_iter().collect() };
 	let both = (1..total).into_par_iter().map(|i| {
 		let s = string(max_len, i);
 		vcore::watched(|| format!("escape space, string {s:?}"), || {
